@@ -9,9 +9,14 @@ theorem applies (non-vacuity):
   `(hyps frag=<F0|F1|F2|F3> toir=<0|1> hyps=<0|1> impok=<0|1> proved=<0|1>)`
 
 `frag` the smallest fragment containing the query tree; `toir` the frontend model accepts the tree;
-`hyps` = `hypsB` for F0–F2 resp. `hyps3B` for F3; `impok` = no fold of the compiled query imports a
-tag twice (`importsOKC`, the F-10 guard, second half of `Hyps3`); `proved` = the main theorem
-`interp_eq_spec` (resp. its instances `interp_eq_spec_F0 … F2`) applies with all its hypotheses. -/
+`hyps` = `hypsB` for F0–F2 resp. `hyps3B` (= `Hyps3`) for F3 — since the fixes of F-9 and F-10 these
+are conditions on the query tree only (there is no F-9 guard any more: a count-filtered fold may sit in
+a missing `@optional` scope); `impok` = the imports of every fold of the compiled query are in order
+(`importsOKC`: each tag once, none that an enclosing fold imports, not the fold's own count) — no
+longer a hypothesis of the theorem (formerly the "F-10 guard", second half of `Hyps3`) but a theorem
+about `toIR` (`importsOKC_of_toIR`), still evaluated here as a regression check: it must be `1`
+whenever `toir=1`; `proved` = the main theorem `interp_eq_spec` (resp. its instances
+`interp_eq_spec_F0 … F2`) applies with all its hypotheses, i.e. `proved = hyps`. -/
 namespace TF.Driver
 open TF TF.Engine TF.InterpSpec
 
@@ -29,7 +34,7 @@ def handleC01Hyps : Handler
     | .ok ir =>
       let impok := importsOKC [] ir.rootComponent
       let hyps := if frag ≤ 2 then hypsB H frag q else hyps3B H q
-      let proved := hyps && (decide (frag ≤ 2) || impok)
+      let proved := hyps
       pure s!"(hyps frag=F{frag} toir=1 hyps={b hyps} impok={b impok} proved={b proved})"
     | .error _ => pure s!"(hyps frag=F{frag} toir=0 hyps=0 impok=0 proved=0)"
   | _, _ => none
